@@ -756,22 +756,23 @@ theorem c13_runD_checks (H : Hier) (hH : SubFacts H) (S : Setup) (orders : List 
   rw [runD_eq_run]
   exact c13_model_checks H hH S orders kinds _
 
-/-- **Finding (F42, reported; glom as it is): re-registering a type nests it under itself.**
-    `_register_fuzzy_type(op, T)` on a level that already has the key `T` takes the first branch of its
-    loop (`issubclass(T, T)`), pops `T` and — the KeyError fallback, because the key was just popped —
-    creates a *new* key `T` holding the old one: `{T: sub}` becomes `{T: {T: sub}}`.  Every further
-    non-exact registration of the type (and every `register_op` of an op it is registered for) adds a
-    level: after `n` of them the tree is `n + 1` levels deep.  All invariants and all answers are
-    unaffected in the model — but `_get_matching_types` recurses once per level, so in CPython about a
-    thousand re-registrations of one type make every lookup of an unregistered subclass raise
-    RecursionError (harness: `DEEP_REREGISTRATION`, gated until the repair). -/
+/-- **Counter-example for the `cur_type is new_type` branch (finding F42, repaired by 63b9f8a): the
+    insertion as it was (`regFuzzyOld`) nests a re-registered type under itself.**
+    `_register_fuzzy_type(op, T)` on a level that already had the key `T` took the `issubclass(T, T)`
+    branch, popped `T` and — the KeyError fallback, because the key was just popped — created a *new*
+    key `T` holding the old one: `{T: sub}` became `{T: {T: sub}}`.  Every further non-exact
+    registration of the type (and every `register_op` of an op it was registered for) added a level:
+    after `n` of them the tree was `n + 1` levels deep.  Invariants and answers were unaffected in
+    the model — but `_get_matching_types` recurses once per level, so in CPython about a thousand
+    re-registrations of one type made every lookup of an unregistered subclass raise RecursionError
+    (harness stream `deep_reregistration_stream`). -/
 theorem c13_reregistration_nests (H : Hier) (t : Ty) (ht : H.sub t t = true) :
-    (∀ kids, regFuzzy H t (.cons t kids .nil) = .cons t (.cons t kids .nil) .nil) ∧
-    (∀ n, regFuzzy H t (Forest.nestSelf t n) = Forest.nestSelf t (n + 1)) ∧
+    (∀ kids, regFuzzyOld H t (.cons t kids .nil) = .cons t (.cons t kids .nil) .nil) ∧
+    (∀ n, regFuzzyOld H t (Forest.nestSelf t n) = Forest.nestSelf t (n + 1)) ∧
     (∀ n, (Forest.nestSelf t n).depth = n + 1) := by
-  have h1 : ∀ kids, regFuzzy H t (.cons t kids .nil) = .cons t (.cons t kids .nil) .nil := by
+  have h1 : ∀ kids, regFuzzyOld H t (.cons t kids .nil) = .cons t (.cons t kids .nil) .nil := by
     intro kids
-    simp [regFuzzy, regLoop, regFinish, ht, Forest.get?, Forest.erase, Forest.set]
+    simp [regFuzzyOld, regLoopOld, regFinish, ht, Forest.get?, Forest.erase, Forest.set]
   refine ⟨h1, fun n => ?_, fun n => ?_⟩
   · cases n with
     | zero => exact h1 .nil
@@ -779,6 +780,24 @@ theorem c13_reregistration_nests (H : Hier) (t : Ty) (ht : H.sub t t = true) :
   · induction n with
     | zero => simp [Forest.nestSelf, Forest.depth]
     | succ n ih => simp [Forest.nestSelf, Forest.depth, ih]
+
+/-- **The repaired insertion: a re-registered type keeps its subtree and moves to the end of its
+    level** (63b9f8a; `regFuzzy` is the code that exists).  On a level whose other keys are unrelated to
+    `T` (every level of a reachable tree: `GoodF`) `{…pre, T: sub, …post}` becomes `{…pre, …post, T: sub}`:
+    no node is added, the depth does not grow (in particular `{T: sub}` stays `{T: sub}`), whether or
+    not `T` is its own subclass. -/
+theorem c13_reregistration_moves_to_end (H : Hier) (t : Ty) (pre kids post : Forest)
+    (hpre : ∀ c ∈ pre.roots, H.sub c t = false ∧ H.sub t c = false)
+    (hpost : ∀ c ∈ post.roots, H.sub c t = false ∧ H.sub t c = false)
+    (hnp : t ∉ pre.roots) (hnq : t ∉ post.roots) :
+    regFuzzy H t (pre.app (.cons t kids post)) = (pre.app post).app (.cons t kids .nil) ∧
+    regFuzzy H t (.cons t kids .nil) = .cons t kids .nil := by
+  have h := regLoop_modeR H t pre kids post false hpre hpost hnp hnq
+  refine ⟨by simp only [regFuzzy, h, regFinish, if_true], ?_⟩
+  have h0 := regLoop_modeR H t .nil kids .nil false (by simp [Forest.roots]) (by simp [Forest.roots])
+    (by simp [Forest.roots]) (by simp [Forest.roots])
+  simp only [Forest.app] at h0
+  simp only [regFuzzy, h0, regFinish, if_true]
 
 /-! ### `exact=True` -/
 
@@ -839,6 +858,22 @@ theorem c13_fuzzy_after_exact (H : Hier) (hH : SubFacts H) (r : Reg) (ρ : RefRe
   · rw [register_tree]
     simp only [hops, and_self, if_true]
     exact ((TreeRel.step hH t (h.tree op)).2.2 t).1 (by rw [mem_insertSet]; exact Or.inl rfl)
+
+/-- **An explicitly registered `False` is a registration like any other** (seeds C13-s10 / s11):
+    (a) a later registration of the same type that does not name the op keeps it — the handler a type
+    already has is taken over, it is not re-discovered because it is falsy; (b) it serves the
+    subclasses: when the tree resolves `t'` to `c` and `c`'s handler is `False`, the lookup finds *no
+    handler* — a farther base or another matching type with a real handler does not take over (the
+    choice of the type does not look at the handlers). -/
+theorem c13_false_is_a_registration (H : Hier) (r : Reg) (op : Op) :
+    (∀ t e kw, odGet t (r.map op) = some none → odGet op kw = none → op ∈ r.autoMap.map (·.1) →
+      odGet t ((register H r t e kw).map op) = some none) ∧
+    (∀ t' c, odGet t' (r.map op) = none → closest H t' (r.tree op) = some c →
+      odGet c (r.map op) = some none → resolve H r op t' = some none) := by
+  refine ⟨fun t e kw hh hk hop => ?_, fun t' c hne hc hh => resolve_of_closest hne hc hh⟩
+  rw [register_map_self H r t e kw op ((mem_opsOf _ _ _).2 (Or.inr hop))]
+  have : odGet t ((odGet op r.typeMap).getD []) = some none := hh
+  simp [pickHandler, hk, this]
 
 /-! ### subclasses of the builtin target types -/
 
@@ -1033,12 +1068,17 @@ example : runD vwTab.toHier [vwReg]
       [.registerOp 0 "uop" "u" false ["W", "V"], .lookup 0 "uop" "P" false] =
     runD vwTab.toHier [vwReg] [.registerOp 0 "uop" "u" false [], .lookup 0 "uop" "P" false] := by decide
 
--- `c13_reregistration_nests` on the default registry of the model: `register(dict, get=…)` and
--- `register(dict, keys=…)` are two registrations of `dict`, `OrderedDict` likewise
+-- the default registry of the model: `register(dict, get=…)` and `register(dict, keys=…)` are two
+-- registrations of `dict` (`OrderedDict` likewise) — since 63b9f8a without any self-nesting …
 example : (freshReg builtinHier genSetup true).tree "get" =
     .cons "object" (.cons "_AbstractIterable"
-      (.cons "dict" (.cons "dict" (.cons "OrderedDict" (.cons "OrderedDict" .nil .nil) .nil) .nil)
-        (.cons "list" .nil (.cons "tuple" .nil .nil)))
+      (.cons "dict" (.cons "OrderedDict" .nil .nil) (.cons "list" .nil (.cons "tuple" .nil .nil)))
       (.cons "_ObjStyleKeys" .nil .nil)) .nil := by decide
+-- … where the insertion as it was gave `dict → dict → OrderedDict → OrderedDict`
+example : regFuzzyOld builtinHier "dict" (regFuzzyOld builtinHier "dict" .nil) =
+    .cons "dict" (.cons "dict" .nil .nil) .nil ∧
+    regFuzzy builtinHier "dict" (regFuzzy builtinHier "dict" .nil) = .cons "dict" .nil .nil := by decide
+-- a re-registered type moves behind its siblings (`c13_reregistration_moves_to_end`)
+example : insertAll vwTab.toHier ["V", "W", "V"] = .cons "W" .nil (.cons "V" .nil .nil) := by decide
 
 end Glom.Props.C13
